@@ -49,6 +49,9 @@ def equations(year):
         E("8995", "12", "add", ["1040.3a", "1040.7"], cite="Form 8995 line 12: net capital gain: qualified dividends plus capital gain (Form 1040 lines 3a and 7)"),
         E("8959", "1", "addinst", terms=[("w-2", "box_5")], cite="Form 8959 line 1: Medicare wages and tips from Form W-2, box 5 (total of all W-2s)"),
         E("8959", "19", "addinst", terms=[("w-2", "box_6")], cite="Form 8959 line 19: Medicare tax withheld from Form W-2, box 6 (total of all W-2s)"),
+    ] + ([E("1040_recovery_rebate_credit_wkst", "6", "rrc6", ["2", "3", "4", "5"],
+            cite="2021 Recovery Rebate Credit Worksheet (Form 1040 instructions, line 30), line 6: $1,400 ($2,800 if married filing jointly and you answered Yes to question 2 or 3)")]
+         if year == 2021 else []) + [
         E("1040_s3", "1", "addinst", terms=[("1099-int", "box_6"), ("1099-div", "box_7")],
           cite="Schedule 3 line 1, election not to file Form 1116 (Form 1040 instructions): the foreign taxes shown on Forms 1099-INT (box 6) and 1099-DIV (box 7), all copies", cond_nonzero=True),
         E("1040_sa", "8a", "addinst", terms=[("1098", "box_1"), ("1098", "box_6")], cite="Schedule A line 8a: home mortgage interest and points reported on Form 1098"),
